@@ -377,6 +377,15 @@ example : (⟨[2, 1, 2, 3], [1, 2, 3, 4, 5, 6, 7, 8, 9, 10, 11, 12]⟩ : Tensor 
       (⟨[2, 4, 2], [1, 0, 0, 1, 1, 0, 0, 1, 1, 0, 0, 1, 1, 0, 0, 1]⟩ : Tensor ℝ) := by
   refine ⟨⟨?_, ?_⟩, ?_, ?_⟩ <;> simp [prod]
 
+/-- **`matmul` with the second operand transposed (the product `conv` forms with the reshaped filters): the left
+    closure is the transpose of the forward map.**  For `a : [m,k]`, `b : [n,k]` and a delta `x : [m,n]`:
+    `⟨a·bᵀ, x⟩ = ⟨a, x·b⟩`, the right-hand product being `specMatmul x false b false none`, the one the left
+    closure forms under the flags the code passes for this pair. -/
+theorem C02_matmul2d_FT_left_closure_is_transpose [AddLaws S] [MulLaws S] [CommLaws S] (a b x : Tensor S) (m k n : Nat)
+    (ha : a.dims = [m, k]) (hb : b.dims = [n, k]) (hx : x.dims = [m, n]) (hwa : a.WF) (hwx : x.WF) :
+    dot (specMatmul a false b true none).vals x.vals = dot a.vals (specMatmul x false b false none).vals :=
+  matmul2d_FT_adjoint_left a b x m k n ha hb hx hwa hwx
+
 end Corgi
 
 #print axioms Corgi.exHeap_shapeOK
@@ -391,3 +400,4 @@ end Corgi
 #print axioms Corgi.C02_expand_closure_is_transpose
 #print axioms Corgi.C02_unroll_closure_is_transpose_total
 #print axioms Corgi.C02_unroll_blocks_closure_is_transpose
+#print axioms Corgi.C02_matmul2d_FT_left_closure_is_transpose
